@@ -70,3 +70,46 @@ Example C19_example_chunk :
   /\ option_map (map (@length nat)) (chunk 80 (repeat 0 160)) = Some [80; 80]
   /\ chunk 80 (@nil nat) = Some [].
 Proof. vm_compute. repeat split. Qed.
+
+(** base64 is no longer a hypothesis: Model/Base64.v is encoding/base64's StdEncoding (compared with it on every run: random
+    byte strings of every length modulo 3, and the literal of every generated file), and reading back what it wrote gives
+    the bytes, for EVERY byte string; so do the 80-column lines of the generated swaggerSpec literal.  The text consists
+    of the 64 characters of the alphabet and '=' (nothing a Go string literal would have to escape), four characters for
+    every three bytes.  What remains a hypothesis is the compressor (gzip: any [gz] with a left inverse). *)
+From Coq Require Import NArith.
+From V Require Import Model.Base64 Proofs.Base64Proofs.
+Theorem C19_base64_round_trip : forall bs, forallb is_byte bs = true -> Base64.decode (Base64.encode bs) = Some bs.
+Proof. exact decode_encode. Qed.
+Print Assumptions C19_base64_round_trip.
+
+Theorem C19_base64_lines_decode : forall bs cs,
+  forallb is_byte bs = true -> chunk 80 (Base64.encode bs) = Some cs -> Base64.decode (concat cs) = Some bs.
+Proof. intros bs cs Hb Hc. rewrite (chunk_concat _ _ _ Hc). apply decode_encode. exact Hb. Qed.
+Print Assumptions C19_base64_lines_decode.
+
+Theorem C19_base64_alphabet : forall bs, forallb is_byte bs = true -> forallb in_alphabet (Base64.encode bs) = true.
+Proof. exact encode_alphabet. Qed.
+Print Assumptions C19_base64_alphabet.
+
+Theorem C19_base64_length : forall bs, List.length (Base64.encode bs) = 4 * ((List.length bs + 2) / 3).
+Proof. exact encode_length. Qed.
+Print Assumptions C19_base64_length.
+
+(** the whole embedding with the compressor as the only hypothesis: compress, base64, cut into lines; join, base64-decode,
+    decompress *)
+Theorem C19_embedding_with_base64 : forall (gz : doc -> list N) (gunzip : list N -> option doc),
+  (forall d, gunzip (gz d) = Some d) -> (forall d, forallb is_byte (gz d) = true) ->
+  forall cfg d d' cs, prepare cfg d = Some d' -> chunk 80 (Base64.encode (gz d')) = Some cs ->
+  match Base64.decode (concat cs) with Some bytes => gunzip bytes | None => None end = Some d'.
+Proof.
+  intros gz gunzip Hinv Hbytes cfg d d' cs _ Hc.
+  rewrite (chunk_concat _ _ _ Hc). rewrite decode_encode by apply Hbytes. apply Hinv.
+Qed.
+Print Assumptions C19_embedding_with_base64.
+
+Example C19_base64_examples :
+  Base64.encode [77; 97; 110]%N = [84; 87; 70; 117]%N          (* "Man" -> "TWFu" *)
+  /\ Base64.encode [77; 97]%N = [84; 87; 69; 61]%N              (* "Ma" -> "TWE=" *)
+  /\ Base64.encode [77]%N = [84; 81; 61; 61]%N                  (* "M" -> "TQ==" *)
+  /\ Base64.decode [84; 81; 61; 61]%N = Some [77]%N.
+Proof. vm_compute. repeat split; reflexivity. Qed.
